@@ -1,5 +1,5 @@
 (* C30 proofs: round trips, absence of panics, sufficiency of the fuel, NewCSNPs/NewPSNPs. *)
-From Coq Require Import List NArith ZArith Bool Arith Lia ZifyBool ZifyNat ZifyN.
+From Coq Require Import List NArith ZArith Bool Arith Lia ZifyBool ZifyNat ZifyN Permutation.
 Import ListNotations.
 From BioVerif Require Import Model.ISISCodec Spec.ISISCodecSpec.
 Open Scope N_scope.
@@ -821,4 +821,321 @@ Proof.
   assert (N1 : nof (decode_l2_hello (S (length b)) b)) by (apply decode_l2_hello_nof; lia).
   split; [|exact N1].
   destruct (decode_l2_hello_mono (S (length b)) f b ltac:(lia)) as [E|E]; [contradiction|]. symmetry; exact E.
+Qed.
+
+Theorem no_panic_l2_total : forall b, decode_l2 b <> Panic /\ decode_l2 b <> OutOfFuel.
+Proof. intro b. split; [exact (no_panic_l2 b)|exact (proj2 (fuel_suffices_l2 b (S (length b)) (le_n _)))]. Qed.
+
+(* ------------------------------------------------------------------ NewCSNPs / NewPSNPs *)
+
+Lemma Forall_firstn : forall (A : Type) (P : A -> Prop) n l, Forall P l -> Forall P (firstn n l).
+Proof.
+  induction n as [|n IH]; intros l H; [constructor|]. destruct l; [constructor|].
+  inversion H; subst. cbn [firstn]. constructor; [assumption|apply IH; assumption].
+Qed.
+
+Lemma Forall_skipn : forall (A : Type) (P : A -> Prop) n l, Forall P l -> Forall P (skipn n l).
+Proof.
+  induction n as [|n IH]; intros l H; [assumption|]. destruct l; [constructor|].
+  inversion H; subst. cbn [skipn]. apply IH; assumption.
+Qed.
+
+Lemma Forall_last : forall (A : Type) (P : A -> Prop) l d, Forall P l -> P d -> P (last l d).
+Proof.
+  induction l as [|x l IH]; intros d H Hd; [assumption|]. inversion H; subst.
+  cbn [last]. destruct l; [assumption|]. apply IH; assumption.
+Qed.
+
+Definition entries_tlv (t : tlv) : Prop := match t with TEntries _ _ _ => True | _ => False end.
+
+Lemma wf_new_entries_tlv : forall es, (length es <= 15)%nat -> Forall wf_entry es -> wf_tlv (new_entries_tlv es).
+Proof.
+  intros es H Hw. unfold new_entries_tlv, wf_tlv. cbn [tlv_len]. unfold u8.
+  assert (E : (N.of_nat (length es) mod 256 * 16) mod 256 = 16 * N.of_nat (length es)) by lia.
+  rewrite E. repeat split; try lia. assumption.
+Qed.
+
+Lemma new_entries_tlvs_ok : forall fuel es, (length es < fuel)%nat -> Forall wf_entry es ->
+  exists ts, new_entries_tlvs fuel es = Ok ts /\ Forall wf_tlv ts /\ map norm_tlv ts = ts /\
+             concat (map tlv_entries ts) = es.
+Proof.
+  induction fuel as [|f IH]; intros es H Hw; [lia|]. cbn [new_entries_tlvs].
+  destruct (15 <? length es)%nat eqn:E.
+  - apply Nat.ltb_lt in E.
+    destruct (IH (skipn 15 es)) as (ts & E1 & W & Nm & C).
+    { rewrite skipn_length. lia. }
+    { apply Forall_skipn; assumption. }
+    rewrite E1. cbn [bind]. eexists; split; [reflexivity|]. repeat split.
+    + constructor; [|assumption]. apply wf_new_entries_tlv.
+      * rewrite firstn_length. lia.
+      * apply Forall_firstn; assumption.
+    + cbn [map norm_tlv new_entries_tlv]. unfold new_entries_tlv at 1. cbn [norm_tlv]. f_equal. assumption.
+    + cbn [map concat tlv_entries new_entries_tlv]. unfold new_entries_tlv. cbn [tlv_entries]. rewrite C. apply firstn_skipn.
+  - apply Nat.ltb_ge in E. eexists; split; [reflexivity|]. repeat split.
+    + constructor; [|constructor]. apply wf_new_entries_tlv; assumption.
+    + cbn. rewrite app_nil_r. reflexivity.
+Qed.
+
+Lemma insert_entry_perm : forall e l, Permutation (insert_entry e l) (e :: l).
+Proof.
+  induction l as [|x l IH]; cbn [insert_entry]; [apply Permutation_refl|].
+  destruct (entry_lt e x); [apply Permutation_refl|].
+  eapply perm_trans; [apply perm_skip; exact IH|apply perm_swap].
+Qed.
+
+Lemma sort_entries_perm_gen : forall l acc,
+  Permutation (fold_left (fun a e => insert_entry e a) l acc) (l ++ acc).
+Proof.
+  induction l as [|e l IH]; intros acc; cbn [fold_left app]; [apply Permutation_refl|].
+  eapply perm_trans; [apply IH|].
+  eapply perm_trans; [apply Permutation_app_head; apply insert_entry_perm|].
+  apply Permutation_sym, Permutation_middle.
+Qed.
+
+Lemma sort_entries_perm : forall l, Permutation (sort_entries l) l.
+Proof. intros. unfold sort_entries. eapply perm_trans; [apply sort_entries_perm_gen|]. rewrite app_nil_r. apply Permutation_refl. Qed.
+
+Lemma sort_entries_length : forall l, length (sort_entries l) = length l.
+Proof. intros. apply Permutation_length, sort_entries_perm. Qed.
+
+Lemma sort_entries_wf : forall l, Forall wf_entry l -> Forall wf_entry (sort_entries l).
+Proof.
+  intros l H. apply Forall_forall. intros x Hx. eapply Forall_forall; [exact H|].
+  eapply Permutation_in; [apply sort_entries_perm|exact Hx].
+Qed.
+
+Definition good_csnp (c : csnp) : Prop := wf_csnp c /\ norm_csnp c = c.
+Definition good_psnp (p : psnp) : Prop := wf_psnp p /\ norm_psnp p = p.
+
+Lemma slice_ok : forall (A : Type) (l : list A) lo hi, (lo <= hi)%nat -> (hi <= length l)%nat ->
+  slice l lo hi = Ok (firstn (hi - lo) (skipn lo l)).
+Proof.
+  intros A l lo hi H1 H2. unfold slice.
+  replace ((lo <=? hi)%nat && (hi <=? length l)%nat) with true; [reflexivity|].
+  symmetry. apply andb_true_iff. split; apply Nat.leb_le; assumption.
+Qed.
+
+Lemma skipn_add : forall (A : Type) n m (l : list A), skipn (n + m) l = skipn m (skipn n l).
+Proof.
+  induction n as [|n IH]; intros m l; [reflexivity|]. destruct l; cbn [Nat.add skipn].
+  - destruct m; reflexivity.
+  - apply IH.
+Qed.
+
+(* one chunk: the remaining entries from start on, at most per of them; the chunks partition the list *)
+Lemma chunk_split : forall (A : Type) (l : list A) start per,
+  firstn (Nat.min per (length l - start)) (skipn start l) ++ skipn (start + per) l = skipn start l.
+Proof.
+  intros A l start per.
+  rewrite skipn_add.
+  destruct (Nat.le_ge_cases per (length l - start)) as [H|H].
+  - rewrite Nat.min_l by assumption. apply firstn_skipn.
+  - rewrite Nat.min_r by assumption.
+    rewrite firstn_all2 by (rewrite skipn_length; lia).
+    rewrite (skipn_all2 (skipn start l)) by (rewrite skipn_length; lia). apply app_nil_r.
+Qed.
+
+Lemma tlvs_len16_u16 : forall ts k, (k + tlvs_len16 ts) mod 65536 < 65536.
+Proof. intros. apply N.mod_lt. discriminate. Qed.
+
+Lemma csnp_loop_ok : forall cnt i per src es,
+  (1 <= per)%nat -> len_is src 7 -> Forall wf_entry es ->
+  (length es <= (i + cnt) * per)%nat ->
+  (0 < cnt -> (i + cnt - 1) * per < length es)%nat ->
+  exists cs, csnp_loop cnt i per src es = Ok cs /\ length cs = cnt /\ Forall good_csnp cs /\
+             concat (map csnp_entries cs) = skipn (i * per) es.
+Proof.
+  induction cnt as [|cnt IH]; intros i per src es Hp Hs Hw H0 H1.
+  - exists []. cbn. repeat split; [constructor|]. rewrite skipn_all2; [reflexivity|]. rewrite Nat.add_0_r in H0. exact H0.
+  - cbn [csnp_loop].
+    assert (Hst : (i * per < length es)%nat).
+    { specialize (H1 ltac:(lia)). nia. }
+    replace (length es <? i * per)%nat with false by (symmetry; apply Nat.ltb_ge; lia).
+    set (start := (i * per)%nat) in *.
+    set (e := Nat.min per (length es - start)).
+    assert (He : (1 <= e)%nat) by (unfold e; lia).
+    rewrite slice_ok by (unfold e; lia). cbn [bind].
+    replace (start + e - start)%nat with e by lia.
+    remember (firstn e (skipn start es)) as chunk eqn:Ec.
+    assert (Hcl : length chunk = e).
+    { subst chunk. rewrite firstn_length, skipn_length. unfold e. lia. }
+    assert (Hcw : Forall wf_entry chunk).
+    { subst chunk. apply Forall_firstn, Forall_skipn. assumption. }
+    destruct chunk as [|first rest]; [cbn in Hcl; lia|].
+    destruct (new_entries_tlvs_ok (S (length (first :: rest))) (first :: rest) ltac:(lia) Hcw) as (ts & E1 & W & Nm & C).
+    rewrite E1. cbn [bind].
+    destruct (IH (S i) per src es Hp Hs Hw) as (cs & E2 & L & G & C2).
+    { replace (S i + cnt)%nat with (i + S cnt)%nat by lia. exact H0. }
+    { intros Hc. specialize (H1 ltac:(lia)). replace (S i + cnt - 1)%nat with (i + S cnt - 1)%nat by lia. exact H1. }
+    rewrite E2. cbn [bind]. eexists; split; [reflexivity|]. repeat split.
+    + cbn [length]. lia.
+    + constructor; [|assumption]. split.
+      * unfold wf_csnp, new_csnp. cbn [cs_len cs_src cs_start cs_end cs_tlvs].
+        inversion Hcw as [|? ? Hf Hr]; subst.
+        repeat split; try assumption.
+        -- apply tlvs_len16_u16.
+        -- apply Hf.
+        -- apply (Forall_last _ (fun x => len_is (le_id x) 8) (first :: rest) first).
+           ++ eapply Forall_impl; [|exact Hcw]. intros a Ha. apply Ha.
+           ++ apply Hf.
+      * unfold norm_csnp, new_csnp. cbn [cs_len cs_src cs_start cs_end cs_tlvs]. rewrite Nm. reflexivity.
+    + cbn [map concat]. unfold csnp_entries at 1, new_csnp. cbn [cs_tlvs]. rewrite C, C2, Ec.
+      unfold e, start. replace (S i * per)%nat with (i * per + per)%nat by lia. apply chunk_split.
+Qed.
+
+Lemma ceil_div_bounds : forall n per, (1 <= per)%nat ->
+  (n <= ceil_div n per * per)%nat /\ (0 < ceil_div n per -> (ceil_div n per - 1) * per < n)%nat /\
+  (ceil_div n per = 0 -> n = 0)%nat.
+Proof.
+  intros n per H. unfold ceil_div.
+  pose proof (Nat.div_mod (n + per - 1) per ltac:(lia)) as D.
+  pose proof (Nat.mod_upper_bound (n + per - 1) per ltac:(lia)) as U.
+  set (q := ((n + per - 1) / per)%nat) in *. set (r := ((n + per - 1) mod per)%nat) in *.
+  repeat split; nia.
+Qed.
+
+Lemma set_first_start_ok : forall cs, cs <> [] -> Forall good_csnp cs ->
+  exists cs', set_first_start cs = Ok cs' /\ length cs' = length cs /\ Forall good_csnp cs' /\
+              concat (map csnp_entries cs') = concat (map csnp_entries cs).
+Proof.
+  intros [|c r] H G; [contradiction|]. inversion G as [|? ? [W Nm] Gr]; subst. destruct c as [len src st en ts].
+  eexists; split; [reflexivity|]. repeat split.
+  - constructor; [|assumption]. destruct W as (W1 & W2 & W3 & W4 & W5). split.
+    + unfold wf_csnp. cbn [cs_len cs_src cs_start cs_end cs_tlvs]. repeat split; try assumption.
+    + unfold norm_csnp in *. cbn [cs_len cs_src cs_start cs_end cs_tlvs] in *. injection Nm as Nm. rewrite Nm. reflexivity.
+Qed.
+
+Lemma set_last_end_ok : forall cs, cs <> [] -> Forall good_csnp cs ->
+  exists cs', set_last_end cs = Ok cs' /\ length cs' = length cs /\ Forall good_csnp cs' /\
+              concat (map csnp_entries cs') = concat (map csnp_entries cs).
+Proof.
+  induction cs as [|c r IH]; intros H G; [contradiction|]. inversion G as [|? ? [W Nm] Gr]; subst.
+  destruct r as [|c2 r].
+  - destruct c as [len src st en ts]. eexists; split; [reflexivity|]. repeat split.
+    constructor; [|constructor]. destruct W as (W1 & W2 & W3 & W4 & W5). split.
+    + unfold wf_csnp. cbn [cs_len cs_src cs_start cs_end cs_tlvs]. repeat split; try assumption.
+    + unfold norm_csnp in *. cbn [cs_len cs_src cs_start cs_end cs_tlvs] in *. injection Nm as Nm. rewrite Nm. reflexivity.
+  - destruct (IH ltac:(discriminate) Gr) as (r' & E & L & G' & C).
+    cbn [set_last_end]. cbn [set_last_end] in E. rewrite E. cbn [bind].
+    eexists; split; [reflexivity|]. repeat split.
+    + cbn [length] in *. lia.
+    + constructor; [split; assumption|assumption].
+    + cbn [map concat]. rewrite C. reflexivity.
+Qed.
+
+Theorem new_csnps_ok : forall src es maxlen,
+  len_is src 7 -> Forall wf_entry es ->
+  exists cs, new_csnps src es maxlen = Ok cs /\ Forall good_csnp cs /\
+    ((1 <= entries_per_pdu (maxlen - 33))%Z -> concat (map csnp_entries cs) = sort_entries es).
+Proof.
+  intros src es maxlen Hs Hw. unfold new_csnps.
+  destruct (entries_per_pdu (maxlen - 33) <? 1)%Z eqn:Ep.
+  { exists []. split; [reflexivity|]. split; [constructor|]. lia. }
+  set (per := Z.to_nat (entries_per_pdu (maxlen - 33))).
+  assert (Hp : (1 <= per)%nat) by (unfold per; lia).
+  destruct (ceil_div_bounds (length es) per Hp) as (B1 & B2 & B3).
+  destruct (ceil_div (length es) per =? 0)%nat eqn:En.
+  { apply Nat.eqb_eq in En. exists []. split; [reflexivity|]. split; [constructor|]. intros _.
+    specialize (B3 En). destruct es; [reflexivity|discriminate]. }
+  apply Nat.eqb_neq in En.
+  destruct (csnp_loop_ok (ceil_div (length es) per) 0 per src (sort_entries es) Hp Hs (sort_entries_wf _ Hw))
+    as (cs & E & L & G & C).
+  { rewrite sort_entries_length. cbn [Nat.add]. exact B1. }
+  { intros _. rewrite sort_entries_length. cbn [Nat.add]. apply B2. lia. }
+  rewrite E. cbn [bind].
+  destruct (set_first_start_ok cs) as (cs1 & E1 & L1 & G1 & C1); [destruct cs; [cbn in L; lia|discriminate]|assumption|].
+  rewrite E1. cbn [bind].
+  destruct (set_last_end_ok cs1) as (cs2 & E2 & L2 & G2 & C2); [destruct cs1; [cbn in L1; lia|discriminate]|assumption|].
+  exists cs2. split; [exact E2|]. split; [assumption|]. intros _. rewrite C2, C1, C. reflexivity.
+Qed.
+
+Lemma psnp_len_u16 : forall ts k, fold_left (fun acc t => (acc + tlv_len t + 2) mod 65536) ts k < 65536 \/ ts = [].
+Proof.
+  intros ts. induction ts as [|t ts IH] using rev_ind; intros k; [right; reflexivity|left].
+  rewrite fold_left_app. cbn [fold_left]. apply N.mod_lt. discriminate.
+Qed.
+
+Lemma psnp_loop_ok : forall cnt i per src es,
+  (1 <= per)%nat -> len_is src 7 -> Forall wf_entry es ->
+  (length es <= (i + cnt) * per)%nat ->
+  (0 < cnt -> (i + cnt - 1) * per < length es)%nat ->
+  exists ps, psnp_loop cnt i per src es = Ok ps /\ length ps = cnt /\ Forall good_psnp ps /\
+             concat (map psnp_entries ps) = skipn (i * per) es.
+Proof.
+  induction cnt as [|cnt IH]; intros i per src es Hp Hs Hw H0 H1.
+  - exists []. cbn. repeat split; [constructor|]. rewrite skipn_all2; [reflexivity|]. rewrite Nat.add_0_r in H0. exact H0.
+  - cbn [psnp_loop].
+    assert (Hst : (i * per < length es)%nat).
+    { specialize (H1 ltac:(lia)). nia. }
+    replace (length es <? i * per)%nat with false by (symmetry; apply Nat.ltb_ge; lia).
+    set (start := (i * per)%nat) in *.
+    set (e := Nat.min per (length es - start)).
+    assert (He : (1 <= e)%nat) by (unfold e; lia).
+    rewrite slice_ok by (unfold e; lia). cbn [bind].
+    replace (start + e - start)%nat with e by lia.
+    remember (firstn e (skipn start es)) as chunk eqn:Ec.
+    assert (Hcl : length chunk = e).
+    { subst chunk. rewrite firstn_length, skipn_length. unfold e. lia. }
+    assert (Hcw : Forall wf_entry chunk).
+    { subst chunk. apply Forall_firstn, Forall_skipn. assumption. }
+    destruct chunk as [|first rest]; [cbn in Hcl; lia|].
+    unfold new_psnp.
+    destruct (new_entries_tlvs_ok (S (length (first :: rest))) (first :: rest) ltac:(lia) Hcw) as (ts & E1 & W & Nm & C).
+    rewrite E1. cbn [bind].
+    destruct (IH (S i) per src es Hp Hs Hw) as (ps & E2 & L & G & C2).
+    { replace (S i + cnt)%nat with (i + S cnt)%nat by lia. exact H0. }
+    { intros Hc. specialize (H1 ltac:(lia)). replace (S i + cnt - 1)%nat with (i + S cnt - 1)%nat by lia. exact H1. }
+    rewrite E2. cbn [bind]. eexists; split; [reflexivity|]. repeat split.
+    + cbn [length]. lia.
+    + constructor; [|assumption]. split.
+      * unfold wf_psnp. cbn [ps_len ps_src ps_tlvs]. repeat split; try assumption.
+        destruct (psnp_len_u16 ts 17) as [H|H]; [exact H|]. subst ts. cbn in C. discriminate C.
+      * unfold norm_psnp. cbn [ps_len ps_src ps_tlvs]. rewrite Nm. reflexivity.
+    + cbn [map concat]. unfold psnp_entries at 1. cbn [ps_tlvs]. rewrite C, C2, Ec.
+      unfold e, start. replace (S i * per)%nat with (i * per + per)%nat by lia. apply chunk_split.
+Qed.
+
+Theorem new_psnps_ok : forall src es maxlen,
+  len_is src 7 -> Forall wf_entry es ->
+  exists ps, new_psnps src es maxlen = Ok ps /\ Forall good_psnp ps /\
+    ((1 <= entries_per_pdu (maxlen - 17))%Z -> concat (map psnp_entries ps) = es).
+Proof.
+  intros src es maxlen Hs Hw. unfold new_psnps.
+  destruct (entries_per_pdu (maxlen - 17) <? 1)%Z eqn:Ep.
+  { exists []. split; [reflexivity|]. split; [constructor|]. lia. }
+  set (per := Z.to_nat (entries_per_pdu (maxlen - 17))).
+  assert (Hp : (1 <= per)%nat) by (unfold per; lia).
+  destruct (ceil_div_bounds (length es) per Hp) as (B1 & B2 & B3).
+  destruct (psnp_loop_ok (ceil_div (length es) per) 0 per src es Hp Hs Hw) as (ps & E & L & G & C).
+  { cbn [Nat.add]. exact B1. }
+  { intros H. cbn [Nat.add]. apply B2. assumption. }
+  exists ps. split; [exact E|]. split; [assumption|]. intros _. rewrite C. reflexivity.
+Qed.
+
+(* every PDU NewCSNPs / NewPSNPs returns decodes back to itself *)
+Theorem new_csnps_roundtrip : forall src es maxlen llc h,
+  len_is src 7 -> Forall wf_entry es -> length llc = 3%nat -> h_type h = 25 ->
+  exists cs, new_csnps src es maxlen = Ok cs /\
+    Forall (fun c => decode (enc_packet llc (mkPacket h (BCsnp c))) = Ok (mkPacket h (BCsnp c))) cs /\
+    ((1 <= entries_per_pdu (maxlen - 33))%Z ->
+       concat (map csnp_entries cs) = sort_entries es /\ Permutation (sort_entries es) es).
+Proof.
+  intros src es maxlen llc h Hs Hw Hl Ht.
+  destruct (new_csnps_ok src es maxlen Hs Hw) as (cs & E & G & C).
+  exists cs. split; [exact E|]. split.
+  - eapply Forall_impl; [|exact G]. intros c [W Nm]. rewrite roundtrip_csnp by assumption. rewrite Nm. reflexivity.
+  - intros Hp. split; [apply C; exact Hp|apply sort_entries_perm].
+Qed.
+
+Theorem new_psnps_roundtrip : forall src es maxlen llc h,
+  len_is src 7 -> Forall wf_entry es -> length llc = 3%nat -> h_type h = 27 ->
+  exists ps, new_psnps src es maxlen = Ok ps /\
+    Forall (fun p => decode (enc_packet llc (mkPacket h (BPsnp p))) = Ok (mkPacket h (BPsnp p))) ps /\
+    ((1 <= entries_per_pdu (maxlen - 17))%Z -> concat (map psnp_entries ps) = es).
+Proof.
+  intros src es maxlen llc h Hs Hw Hl Ht.
+  destruct (new_psnps_ok src es maxlen Hs Hw) as (ps & E & G & C).
+  exists ps. split; [exact E|]. split.
+  - eapply Forall_impl; [|exact G]. intros c [W Nm]. rewrite roundtrip_psnp by assumption. rewrite Nm. reflexivity.
+  - exact C.
 Qed.
